@@ -25,7 +25,7 @@ Verdict(r) == IF ~("blocks" \in DOMAIN r) THEN "ok"
               ELSE LET w == WellFormed(r.blocks)
                    IN IF w # "ok" THEN w
                       ELSE IF ClockCalls(r.blocks) < Clock(r) THEN "frozen-clock"
-                      ELSE IF "tick" \in DOMAIN r /\ r.tick[1] = r.tick[2] THEN "clock-did-not-tick"
+                      ELSE IF "tick" \in DOMAIN r /\ r.tick[1].o = "ok" /\ r.tick[1] = r.tick[2] THEN "clock-did-not-tick"
                       ELSE "ok"
 
 Step == /\ mode = "verdicts" /\ l <= Len(Rec)
